@@ -6,7 +6,7 @@ CLAIMED = {
     "C01": ("proof", "codec round-trip theorems for all messages/payloads; Codec model tied by regenerated tables + differential run"),
     "C02": ("proof", "decoder accepts exactly the well-formed lines (iff theorem) and rejects with the invalid-message error only"),
     "C03": ("proof", "generic theorem over the whole receive path: for every oracle, fault stream and state satisfying the invariant a listen step never raises a non-library exception and re-establishes the invariant; lifted to all histories"),
-    "C04": ("proof", "closed forms of every registry-changing handler (what changes, which error names which id, nothing changes on a missing node/child), registry footprint for every listen step and every history (no record other than the sender's and the id being handed out changes), invariant over all histories; the end-to-end spec fold is tied by the correspondence"),
+    "C04": ("proof", "closed forms of every registry-changing handler and, end to end for one listen step under every protocol, the registry after a set / req / presentation / attribute-report line (decorators and 2.x layers included); registry footprint for every listen step and every history (no record other than the sender's and the id being handed out changes); invariant over all histories; the fold over whole histories against the spec written from the property text is tied by the correspondence"),
     "C05": ("proof", "selection theorem for all dotted-numeric release strings, agreement of reported version and active protocol as part of the invariant over all histories, type gate"),
     "C06": ("proof", "closed forms of the version-query wrapper (generic in the wrapped handler) and of each reaction; a listen step never parks anything (generic theorem)"),
     "C07": ("proof", "send and the wake step in closed form for every buffer content: parked until the wake, released once, only that node, last parked value; over whole histories a parked command stays parked through every operation that is not a wake signal of its node or a send for its key, and is written at the next fault-free wake"),
